@@ -1302,3 +1302,11 @@ package server
 //@   requires self != nil
 //@   ensures C08.header.eof: implies(!isnil(err), result == err)
 //@   modifies AofFile.size@self, E_byte
+
+// C09: a full transfer to an empty follower announces, when the ring holds nothing, the position of the next
+// record the leader will write (files are shipped strictly below it, the stream continues from it): no record
+// is skipped between the two phases. A follower that resumes from a known position gets that position back.
+//@ func (*ReplicationServer).handleInitSync
+//@   requires self != nil && command != nil && self.waofLock != nil && self.aof != nil && self.manager != nil
+//@   at call FormatAofId assert C09.sync.start-position: implies(request.AofId == "" && calls(Decode) == 0, self.waofLock.AofIndex == self.aof.aofFileIndex && self.waofLock.AofOffset == u32(self.aof.aofFileOffset + 1))
+//@   modifies all
